@@ -105,6 +105,8 @@ def the_idp(config_defaults=False):
         over = {}
         if config_defaults is True:
             over = {"idp": {"encrypt_assertion": True, "sign_assertion": True}}
+        elif config_defaults == "B":
+            over = {"idp": {"encrypted_advice_attributes": True, "sign_response": True, "encrypt_assertion_self_contained": False}}
         elif config_defaults == "verify":
             want_a, want_b = env.cert_b64(VERIFY_ASSERTION), env.cert_b64(VERIFY_ADVICE)
             over = {"idp": {"verify_encrypt_cert_assertion": lambda c: c == want_a, "verify_encrypt_cert_advice": lambda c: c == want_b}}
@@ -185,6 +187,10 @@ def run_idp_case(c):
         # the flags set in the IdP configuration are left to it
         kw["encrypt_assertion"] = None
         kw["sign_assertion"] = None
+    elif c.get("config_defaults") == "B":
+        kw["encrypted_advice_attributes"] = None
+        kw["sign_response"] = None
+        kw["encrypt_assertion_self_contained"] = None
     nid = NameID(format=NAMEID_FORMAT_TRANSIENT, text=c["ident"]["name_id"])
     identity = dict((k, list(v)) for k, v in c["ident"]["attrs"])
     try:
@@ -244,6 +250,11 @@ def unit_idp(ctx):
                      self_contained=True)
         for layout in ("one", "none"):
             plan.append((flags, layout, None, None, True))
+    for fl in itertools.product([False, True], repeat=3):
+        flags = dict(sign_response=True, sign_assertion=fl[0], encrypt_assertion=fl[1], encrypted_advice_attributes=True, pefim=fl[2],
+                     self_contained=False)
+        for layout in ("two", "none"):
+            plan.append((flags, layout, None, None, "B"))
     for fl in itertools.product([False, True], repeat=3):
         # verify_encrypt_cert_* callables configured: every pair of certificate arguments
         flags = dict(sign_response=False, sign_assertion=fl[2], encrypt_assertion=fl[0], encrypted_advice_attributes=False, pefim=fl[1],
